@@ -331,6 +331,9 @@ func Replay[C any](t *testing.T, r *Rec, path string, check func(C, *Rec) []Disc
 		for _, d := range un {
 			t.Errorf("%s: [%s] %s", filepath.Base(path), d.Sig, d.Msg)
 		}
+		if os.Getenv("VERIF_VERBOSE") != "" && un[0].Ctx != "" {
+			fmt.Println(un[0].Ctx)
+		}
 	}
 }
 
